@@ -13,6 +13,11 @@ AREAS = {
     'M': 'csep/core/catalogs.py and csep/utils/readers.py',
     'N': 'csep/core/forecasts.py, csep/core/repositories.py, csep/models.py and csep/__init__.py',
     'O': 'csep/core/poisson_evaluations.py, csep/core/binomial_evaluations.py, csep/core/brier_evaluations.py and csep/core/catalog_evaluations.py',
+    'P': 'csep/utils/calc.py, csep/utils/stats.py, csep/utils/time_utils.py and csep/utils/readers.py',
+    'Q': 'csep/core/regions.py and csep/core/catalogs.py (the interplay of catalogs and regions: gridding, filtering, indices)',
+    'R': 'csep/core/forecasts.py, csep/core/catalogs.py (persistence: dict/json/ascii/dataframe) and csep/core/repositories.py',
+    'S': 'csep/core/poisson_evaluations.py, csep/core/binomial_evaluations.py and csep/core/brier_evaluations.py',
+    'T': 'csep/core/catalog_evaluations.py, csep/models.py, csep/__init__.py and csep/core/forecasts.py (CatalogForecast)',
     'J': 'csep/core/poisson_evaluations.py, csep/core/binomial_evaluations.py, csep/core/brier_evaluations.py, csep/core/catalog_evaluations.py and csep/models.py (test kernels, simulation loops, result construction)',
 }
 print(f'''You are working in a scratch git worktree of the pyCSEP repository at {wt} (a detached checkout). Work ONLY inside {wt}: do not touch /repo, /verif or any other directory, do NOT use `git stash`, never commit anything.
@@ -21,7 +26,7 @@ Environment: use /venv/bin/python and ALWAYS run with PYTHONPATH={wt} so that yo
 
 Task: act as a maintainer doing clean-up. Produce EIGHT independent, strictly BEHAVIOUR-PRESERVING refactorings in this area: {AREAS[g]}.
 "Behaviour-preserving" is meant strictly: for every input the functions return the same values (same dtypes, same order), raise the same exceptions and have the same side effects on object state as before. If you are not sure an edit is exactly equivalent, do not make it. Do not fix bugs, do not change defaults, do not change messages of raised exceptions.
-Make them structurally substantial rather than cosmetic, and different in kind. In this round each refactoring should COMBINE at least two kinds in one patch and touch at least two functions (the way a real clean-up commit does), and at least two of the eight should be class-level or module-level (extract a method, turn a repeated expression into a property or a module constant, pull shared code of sibling methods into one private method, replace index-based iteration by enumerate/zip or the reverse). Examples of kinds (use at least six different kinds): split a long function into helpers (same module, or nested); move a nested helper to module level or the reverse; merge duplicated branches into one code path; replace an if/elif chain by a dict dispatch or the reverse; guard clauses / early returns instead of nested ifs; loop <-> comprehension / generator; explicit loop <-> exactly equivalent vectorised numpy expression (mind dtypes and empty inputs); positional <-> keyword arguments, reordered keyword arguments; `numpy.sum(a)` <-> `a.sum()`, `len(a)` <-> `a.shape[0]` for 1-D arrays; `x = x + y` <-> `x += y` on Python scalars only; hoisting loop-invariant expressions; introducing or removing temporaries; renaming private helpers and locals (update all call sites); replacing a lambda by a def; restructuring `with`/`try` blocks without changing which statements are protected; tuple/dict literal <-> incremental construction.
+Make them structurally substantial rather than cosmetic, and different in kind. In this round each refactoring should COMBINE at least two kinds in one patch and touch at least two functions (the way a real clean-up commit does), and at least two of the eight should be class-level or module-level (extract a method, turn a repeated expression into a property or a module constant, pull shared code of sibling methods into one private method, replace index-based iteration by enumerate/zip or the reverse). Examples of kinds (use at least six different kinds): split a long function into helpers (same module, or nested); move a nested helper to module level or the reverse; merge duplicated branches into one code path; replace an if/elif chain by a dict dispatch or the reverse; guard clauses / early returns instead of nested ifs; loop <-> comprehension / generator; explicit loop <-> exactly equivalent vectorised numpy expression (mind dtypes and empty inputs); positional <-> keyword arguments, reordered keyword arguments; `numpy.sum(a)` <-> `a.sum()`, `len(a)` <-> `a.shape[0]` for 1-D arrays; `x = x + y` <-> `x += y` on Python scalars only; hoisting loop-invariant expressions; introducing or removing temporaries; renaming private helpers and locals (update all call sites); replacing a lambda by a def; restructuring `with`/`try` blocks without changing which statements are protected; tuple/dict literal <-> incremental construction; a decorator-free rewrite of a property into an explicit getter used by the property; class attribute tables; context managers; `while` <-> `for`; early `continue`; walrus; star-unpacking; f-string <-> format; chained comparison <-> conjunction; De Morgan rewrites of conditions; swapping the arms of an if/else with the negated test.
 Each refactoring must touch the substantive functions of the area (not only docstrings, comments, logging or plotting code) and must be made against the CLEAN checkout (refactorings are independent alternatives, not a series).
 
 For each k in 1..8 create {wt}/_refac/k/ with
